@@ -458,7 +458,8 @@ def _in_flow_layout(context, box, index, child, new_children, page_is_empty,
         # Between in-flow siblings
         page_break = block_level_page_break(last_in_flow_child, child)
         page_name = block_level_page_name(last_in_flow_child, child)
-        if page_name or force_page_break(page_break, context):
+        force_break = page_name or force_page_break(page_break, context)
+        if force_break and not isinstance(box, boxes.FootnoteAreaBox):
             page_name = child.page_values()[0]
             next_page = {'break': page_break, 'page': page_name}
             resume_at = {index: None}
